@@ -59,6 +59,7 @@ type Contract struct {
 	Lemma      bool
 	NoFrame    bool
 	NoWrap     bool
+	RealDiv    bool
 	Uses       []ast.Expr
 	Line       string
 }
@@ -308,6 +309,8 @@ func (c *Ctx) parseContracts(p *packages.Package) error {
 						cur.Arith = true
 					case "abstract":
 						cur.Abstract = true
+					case "realdiv":
+						cur.RealDiv = true
 					case "nowrap":
 						cur.NoWrap = true
 					case "noframe":
